@@ -205,8 +205,12 @@ def register(PROPS):
         # published copies: the construction routes are run here as well (their own property is C14)
         if case.startswith(("UT ", "GUT ")):
             return cmp_c15(case, go, m, s)
-        if case.startswith("FLD "):
+        if case.startswith(("FLD ", "GFLD ")):
             return cmp_c14(case, go, m, s)
+        # what sending a message through the library's own Session does to it (Server.Publish reaches every subscriber
+        # through Session.Send): the message is what it was before, whatever became of the write
+        if case.startswith("SESS "):
+            return go == m, s == "ok"
         # Joe scenarios: the caller's message after Publish (whatever the replayer answered) must be what it was before
         if case.startswith("JOE "):
             corr = m == "accept"
@@ -218,7 +222,7 @@ def register(PROPS):
         return go == m, go == s
 
     def hist_c19_all(case, go):
-        if case.startswith(("FLD ", "UT ", "GUT ")):
+        if case.startswith(("FLD ", "UT ", "GUT ", "GFLD ", "SESS ")):
             return ["op:" + " ".join(case.split(" ")[:2 if case.startswith("FLD ") else 1])]
         if case.startswith(("FINITE ", "VALID ")):
             n = sum(int(o.split(":")[2]) for o in case.split(" ")[-1].split(";") if o.startswith("N:"))
@@ -229,7 +233,8 @@ def register(PROPS):
         "gens": [{"id": "C19", "quick": 15000, "thorough": 500000, "thorough_seeds": 12},
                  {"id": "C17", "quick": 1200, "thorough": 30000, "thorough_seeds": 6},
                  {"id": "C19L", "quick": 8, "thorough": 60, "thorough_seeds": 6},
-                 {"id": "C14", "quick": 4000, "thorough": 100000, "thorough_seeds": 6}],
+                 {"id": "C14", "quick": 4000, "thorough": 100000, "thorough_seeds": 6},
+                 {"id": "C16S", "quick": 4000, "thorough": 100000, "thorough_seeds": 6}],
         "compare": cmp_c19,
         "on_crash": "correspondence",
         "replay_repeats": 50,
